@@ -94,7 +94,8 @@ def walker_rule(ctx, r, fname, label, leaf_check, helpers=None):
             continue
         r.bad(label + "|arm|" + v, "%s has no explicit arm for HirKind::%s (it falls into a wildcard)" % (fname.split("::")[-1], v),
               fn=f, construct=v)
-    names = {fname}
+    # (a recursive worker split off the walker and spliced into it: recursing into the worker is recursing into the walker)
+    names = {fname} | set(facts.inlined.get(fname, []))
     helpers = helpers or {}
     for v in ("Repetition", "Capture"):
         if v not in arms:
@@ -497,29 +498,50 @@ def run(ctx):
         f = facts.fn(R + "::strip::strip_from_match")
         eb = ExprBuilder(f)
         ASC = R + "::strip::strip_from_match_ascii"
-        cs = f.calls_to(ASC)
-        sw = cond_switches(f, lambda e: is_call(e, "grep_matcher::LineTerminator::is_crlf"), eb)
-        if len(cs) == 3 and sw:
-            crlf = [c for c in cs if not guarded(f, [c.bb], sw, True)]
-            other = [c for c in cs if not guarded(f, [c.bb], sw, False)]
-            bytes_ = sorted(W.const_val(eb.operand(c.args[1])) or -1 for c in crlf)
-            chained = any(mentions_call(eb.operand(c.args[0]), ASC) for c in crlf)
-            if len(crlf) == 2 and bytes_ == [10, 13] and chained:
+        # value table over line_term.is_crlf(): which strip passes run, with which byte, and on what. A pass may sit in the
+        # function or in a closure it hands to and_then / try_fold (the site is then the consuming call).
+        from ..flow import call_sites as _cs, with_default as _wd
+        sites = _cs(facts, f, ASC)
+        asks = f.calls_to("grep_matcher::LineTerminator::is_crlf")
+        LT_AB = "grep_matcher::LineTerminator::as_bytes"
+
+        def passes(crlf_val):
+            sx = Sccp(f, call_model=_wd(lambda c_, argv: I(crlf_val) if c_.is_("grep_matcher::LineTerminator::is_crlf") else None)).run([(0, {})])
+            out = []
+            for bb_, unit, c_ in sites:
+                if bb_ not in sx.exec_blocks:
+                    continue
+                ebu = ExprBuilder(unit)
+                byte_e, expr_e = ebu.operand(c_.args[1]), ebu.operand(c_.args[0])
+                # for a pass inside a closure: what the consuming call is applied to
+                host = [x for x in f.calls() if x.bb == bb_][0] if unit is not f else None
+                host_args = [eb.operand(a_) for a_ in host.args] if host is not None else []
+                out.append({"byte": W.const_val(byte_e), "as_byte": mentions_call(byte_e, "grep_matcher::LineTerminator::as_byte"),
+                            "chained": mentions_call(expr_e, ASC) or any(mentions_call(h_, ASC) for h_ in host_args),
+                            "fold_bytes": host is not None and host.path.rsplit("::", 1)[-1] in ("try_fold", "fold", "try_for_each") and
+                            any(mentions_call(h_, LT_AB) for h_ in host_args),
+                            "call": c_, "unit": unit})
+            return out
+        if not sites or not asks and not any(mentions_call(eb.operand(a_), LT_AB) for c_ in f.calls() for a_ in c_.args):
+            r.bad("crlf", "anchor-missing: strip_from_match shape (calls %d)" % len(sites), fn=f)
+        else:
+            pc, pn = passes(1), passes(0)
+            consts = sorted(p_["byte"] for p_ in pc if p_["byte"] is not None)
+            folded = any(p_["fold_bytes"] for p_ in pc)
+            if (consts == [10, 13] and any(p_["chained"] for p_ in pc if p_["byte"] == 10)) or folded:
                 r.ok("crlf", "CRLF: strip \\r then \\n, the second pass on the first's result", fn=f)
             else:
                 r.bad("crlf", "under a CRLF terminator the pattern is not stripped of both \\r and \\n in sequence (bytes %s, chained %s)"
-                      % (bytes_, chained), fn=f, construct="crlf")
-            if len(other) == 1 and mentions_call(eb.operand(other[0].args[1]), "grep_matcher::LineTerminator::as_byte"):
+                      % (consts, any(p_["chained"] for p_ in pc)), fn=f, construct="crlf")
+            if any(p_["as_byte"] for p_ in pn) and not any(p_["byte"] in (10, 13) for p_ in pn) or any(p_["fold_bytes"] for p_ in pn):
                 r.ok("single", "otherwise strip line_term.as_byte()", fn=f)
             else:
                 r.bad("single", "the single-byte terminator path does not strip line_term.as_byte()", fn=f, construct="single")
-            for c in crlf:
-                if not mentions_call(eb.operand(c.args[0]), ASC):
-                    v, d = classify_result(f, c)
-                    if v != "try":
+            for p_ in pc:
+                if p_["unit"] is f and not p_["chained"] and p_["byte"] == 13:
+                    v, d = classify_result(f, p_["call"])
+                    if v not in ("try", "returned"):
                         r.bad("crlf|err", "an error of the first CRLF pass is %s" % v, fn=f)
-        else:
-            r.bad("crlf", "anchor-missing: strip_from_match shape (calls %d)" % len(cs), fn=f)
         g = facts.fn(ASC)
         ebg = ExprBuilder(g)
         ia = cond_switches(g, lambda e: is_call(e, "core::num::<impl u8>::is_ascii") or (e.k == "call" and e[1].endswith("is_ascii")), ebg)
